@@ -258,9 +258,10 @@ fn run19_inner(op: &str, a: &[Arg]) -> String {
         },
         "conv.BT" => match f(&a[0]) { Val::B(b) => obs(&Val::T(TruthTable::from(b))), _ => panic!("HARNESS") },
         "conv.BE" => match f(&a[0]) { Val::B(b) => obs(&Val::E(Expression::from(b))), _ => panic!("HARNESS") },
+        // the exception carries the error's own text (`PyRuntimeError::new_err(err.to_string())`)
         "parse" => match Expression::from_str(&xs(0)) {
             Ok(e) => obs(&Val::E(e)),
-            Err(_) => "EXC:RuntimeError".to_string(),
+            Err(e) => format!("EXC:RuntimeError:{}", e),
         },
         "ctor.bad" => "EXC:TypeError".to_string(),
         "csv.from" => match TruthTable::from_csv_string(&xs(0)) {
